@@ -14,7 +14,7 @@ C1, C2 = 0x87c37b91114253d5, 0x4cf5ad432745937f
 
 # ------------------------------------------------------------------ independent specification (Cassandra's variant)
 def bv(v, w=64): return z3.BitVecVal(v & ((1 << w) - 1), w)
-def rotl(x, r): return z3.RotateLeft(x, r)
+def rotl(x, r): return (x << r) | z3.LShR(x, 64 - r)     # portable SMT-LIB (no z3-only ext_rotate_left)
 def spec_fmix(k):
     k = k ^ z3.LShR(k, 33); k = k * bv(0xff51afd7ed558ccd); k = k ^ z3.LShR(k, 33); k = k * bv(0xc4ceb9fe1a85ec53)
     return k ^ z3.LShR(k, 33)
@@ -59,7 +59,7 @@ def spec_murmur3_token(data):
 
 def models():
     m = {}
-    m.update(sm.WRAPPING_MODELS); m.update(sm.RANGE_MODELS); m.update(sm.SLICE_MODELS)
+    m.update(sm.WRAPPING_MODELS); m.update(sm.RANGE_MODELS); m.update(sm.SLICE_MODELS); m.update(sm.INT_MODELS)
     m[r"^<\[u8; \d+\] as Default>::default$"] = lambda it, p, c, a: Tup([it.const_int(0, "u8") for _ in range(int(c.split(";")[1].split("]")[0]))], "array")
     m["__consts__"] = {"RangeFull": Opaque("RangeFull")}
     return m
